@@ -106,7 +106,7 @@ impl Monitor for C08 {
                 3 => format!("{}/{}", sa2, sb),
                 4 => format!("{}^{}", sa2, sb),
                 5 => format!("-{}", sa2),
-                6 => format!("{}{}", sa2, *rng.pick(&["²", "³", "⁰", "¹", "⁵"][..])),
+                6 => format!("{}{}", sa2, *rng.pick(&["²", "³", "⁰", "¹", "⁵", "⁴", "⁶", "⁷", "⁸", "⁹", "¹²"][..])),
                 7 => format!("{}{}", sa2, *rng.pick(&["°", "rad"][..])),
                 _ => {
                     let f = *rng.pick(&funcs);
@@ -171,7 +171,7 @@ impl Monitor for C08 {
         // levels deep; the reference gives a verdict where one tolerance-checked operation sits on
         // exactly known operands, possibly under further exact operations
         let mut cfg = GenCfg::full(ev, &leaf);
-        cfg.sup_digits = vec!["2", "3", "0", "1", "5"];
+        cfg.sup_digits = vec!["2", "3", "0", "1", "5", "4", "6", "7", "8", "9"];
         let n4 = ctx.tier.pick(60_000u64, 800_000);
         for i in 0..n4 {
             if ctx.mine() {
